@@ -1768,8 +1768,12 @@ class Buffer:
             completions = complete_state.completions
 
             # When there is only one completion, which has nothing to add, ignore it.
-            if len(completions) == 1 and completion_does_nothing(
-                document, completions[0]
+            # (Not when the user selected it while the completions were still
+            # loading: removing it would leave `complete_index` dangling.)
+            if (
+                len(completions) == 1
+                and complete_state.complete_index is None
+                and completion_does_nothing(document, completions[0])
             ):
                 del completions[:]
 
